@@ -2873,6 +2873,15 @@ fn base64_decode(input: &[u8]) -> Result<Vec<u8>, &'static str> {
     return Err("Base64 literal mixes the RFC 4648 base64 and base64url alphabets");
   }
 
+  // Padding may only close the literal (RFC 4648 §3.3: a pad character anywhere
+  // else is a non-alphabet character). The padded decoders below would accept
+  // a concatenation of individually padded blocks.
+  if let Some(first_pad) = input.iter().position(|b| *b == b'=') {
+    if input[first_pad..].iter().any(|b| *b != b'=') {
+      return Err("Invalid base64 encoding");
+    }
+  }
+
   // The two alphabets differ only in `+/` versus `-_`, so a literal that uses
   // neither pair decodes identically under either one.
   let encoding = match (uses_classic, input.contains(&b'=')) {
